@@ -1550,3 +1550,29 @@ def rule_passthrough_options(ctx) -> RuleResult:
                        f"'{norm(x)[:60]}' rewrites the option {key} inside the per-variable wrapper: xarray_reduce then runs groupby_reduce with another value than the caller "
                        "gave (min_count dropped for non-skipping reductions, say), so the two entry points answer the same request differently")
     return res
+
+
+# ---------------------------------------------------------------------------------------------
+# R-PREDFAMILY (C11, C19): the `_is_*_reduction(func: T_Agg)` predicates treat both spellings of a reduction alike.
+# `func` may be a name or an Aggregation object (flox.aggregations.max_ is a legal argument).  Every predicate of the family either turns the
+# object into its name (`if isinstance(func, Aggregation): func = func.name`) or tests the object explicitly; one that only recognises strings
+# answers False for the object spelling, and groupby_reduce then treats `func=max_` differently from `func="max"` (bool data come back int64).
+def rule_predfamily(ctx) -> RuleResult:
+    res = RuleResult("R-PREDFAMILY", "the _is_*_reduction predicates handle the name and the Aggregation spelling alike", min_instances=4)
+    import re
+    for q, f in sorted(ctx.prog.funcs.items()):
+        if not re.fullmatch(r"core\._is_\w+_reduction", q) or len(f.params) != 1:
+            continue
+        p = f.params[0]
+        handles_obj = any(isinstance(c, ast.Call) and norm(c.func) == "isinstance" and len(c.args) == 2 and norm(c.args[0]) == p and "Aggregation" in norm(c.args[1])
+                          for c in ast.walk(f.node))
+        # delegation alone (e.g. `not _is_arg_reduction(func) and isinstance(func, str) ...`) does not count: the string test after it still rejects the object
+        string_only = any(isinstance(c, ast.Call) and norm(c.func) == "isinstance" and len(c.args) == 2 and norm(c.args[0]) == p and norm(c.args[1]) == "str"
+                          for c in ast.walk(f.node)) and not handles_obj
+        res.inst(f"{q}: handles an Aggregation object itself: {handles_obj}", q)
+        if not handles_obj:
+            res.report(f"{q}|string-spelling-only", f.where(), q,
+                       f"{q} never looks at an Aggregation object" + (" (it requires isinstance(func, str))" if string_only else "") + ", unlike its siblings, which turn the "
+                       "object into its name: for func=flox.aggregations.max_ it answers False, so e.g. bool data reduced with the object come back int64 where "
+                       "func='max' returns bool")
+    return res
